@@ -167,9 +167,10 @@ def pair_job(name, panel, method, tname, sym, elig, seed=0, twin=False,
                       transform=tname, elig=elig, scale_pow=scale_pow,
                       conc=search.apply_concrete(None, vals)),
             twin=twin, detail=bad[:3],
-            # exact-real reasoning can place a budget bound between a float
-            # budget and its exactly scaled twin (they differ by an ulp)
-            band_ok=('scale' in tname and 'budget' in sym)))
+            # exact-real reasoning can place a real-valued bound between a
+            # float-computed quantity of one run and its twin in the other
+            # run (they can differ by an ulp): such witnesses do not replay
+            band_ok=('budget' in sym or 'share' in sym or 'vol' in sym)))
     if len(js.r['samples']) < 2:
       js.r['samples'].append(dict(transform=tname, method=method, symbolic=list(
           sym), designs=[(sorted(d['T']), sorted(d['C'])) for d in _summ(A)]
